@@ -156,6 +156,12 @@ type c08Replay struct {
 }
 
 func sliceOf(flat []int, s, c int) []int {
+	if s < 0 { // plan fields set directly (machine-integer cases): a negative offset skips nothing
+		s = 0
+	}
+	if c < 0 { // ... and a negative count yields nothing
+		c = 0
+	}
 	if s > len(flat) {
 		s = len(flat)
 	}
